@@ -1,13 +1,20 @@
 package main
 
+import "strings"
+
 func checkC17(c *Ctx) {
 	e1CheckConstants(c, "C17-K6", []string{"dhcpv4.", "iana.Arch", "iana.HWType"}, 200)
+	byteOrderRule(c, "C17-K7", []string{"dhcpv4", "iana", "rfc1035label"}, 10)
+	e8CheckRejects(c, "C17-K8", func(n string) bool {
+		return strings.Contains(n, "dhcpv4.") || strings.Contains(n, "iana.") || strings.Contains(n, "rfc1035label.")
+	}, 10)
 	r := c.R
 	r.Decides = append(r.Decides,
 		"K4 codec symmetry and RFC layout of each DHCPv4 option value type (E2 rows: RFC 2132 §3–9, 3442, 3004, 3925, 4578)")
 	r.NotDecided = append(r.NotDecided, "value correctness of net.CIDRMask etc. beyond guards; string trimming semantics")
 	e2CheckLayouts(c, "C17-K4", isV4Value, 30)
 	c17Accessors(c)
+	c17Ctors(c)
 	// set-then-get of the domain search list depends on the label set's re-emission rule (shared with C19-K1)
 	c19Rule = "C17-K1"
 	c19ToBytes(c)
